@@ -116,6 +116,20 @@ def main():
             # engine K (shares the pool of `jobs` cbmc processes)
             kres = []
             if kunits:
+                # 1. K-slices first: a unit whose slice anchors are lost must not get its module attached
+                done_slices = set()
+                for u in kunits:
+                    if u["id"] in lost_units:
+                        continue
+                    try:
+                        for sl in u.get("slices", []):
+                            if sl["name"] not in done_slices:
+                                scratch.add_slice(sl)
+                                done_slices.add(sl["name"])
+                    except (core.AnchorLost, FileNotFoundError) as e:
+                        undecided.append({"unit": u["id"], "reason": f"lost anchor (K-slice): {e}"})
+                        lost_units.add(u["id"])
+                # 2. harness modules of the units that are still in play
                 attached = set()
                 for u in kunits:
                     if u["id"] in lost_units:
@@ -128,17 +142,12 @@ def main():
                                 undecided.append({"unit": u["id"], "reason": f"lost anchor: {e}"})
                                 lost_units.add(u["id"])
                             attached.add(key)
-                done_slices = set()
+                # units sharing a module with a lost unit cannot compile either
+                lost_mods = {(u["file"], u["modfile"]) for u in kunits if u["id"] in lost_units}
                 for u in kunits:
-                    for sl in u.get("slices", []):
-                        if u["id"] in lost_units or sl["name"] in done_slices:
-                            continue
-                        try:
-                            scratch.add_slice(sl)
-                            done_slices.add(sl["name"])
-                        except (core.AnchorLost, FileNotFoundError) as e:
-                            undecided.append({"unit": u["id"], "reason": f"lost anchor (K-slice): {e}"})
-                            lost_units.add(u["id"])
+                    if u["id"] not in lost_units and (u["file"], u["modfile"]) in lost_mods and (u["file"], u["modfile"]) not in attached:
+                        undecided.append({"unit": u["id"], "reason": "harness module shared with a unit whose anchors are lost"})
+                        lost_units.add(u["id"])
                 run = [u for u in kunits if u["id"] not in lost_units]
                 if run:
                     # first harness alone builds the dependencies; the others then share target/
